@@ -71,6 +71,49 @@ for L in (6,):
       "every other token kind", f"mnemonic <= {L} x token text <= {L} bytes", cap_s=400, mem_gb=4, unwind=L + 2,
       also=["C02"])
 
+# ---------------------------------------------------------------------------- C04 (K-lex; also C01, C14)
+MODES = {0: "inside a header", 1: "data part", 2: "inside a common command header", 3: "data part of a common command"}
+CLASSES = {0: "any", 1: "letter", 2: "digit", 3: "sign", 4: "dot", 5: "#H", 6: "#Q", 7: "#B", 8: "#0 block", 9: "#1 block",
+           10: "#2 block", 11: "#9 block", 12: "double quote", 13: "single quote", 14: "expression", 15: "common '*'",
+           16: "colon", 17: "query", 18: "semicolon", 19: "comma", 20: "space", 21: "newline", 22: "other ASCII",
+           23: "non-ASCII", 24: "number + suffix", 25: "number + space"}
+
+
+def KLEX(n, mode, cls, tier, cap=600, mem=4, unwind=None, kind=None):
+    a = "a" if kind == "attempt" else ""
+    name = f"c04_{tier}{a}_lex_m{mode}_c{cls}_n{n}"
+    first = "all bytes symbolic" if cls == 0 else f"first byte(s) fixed to the representative of class '{CLASSES[cls]}', rest symbolic"
+    H(name, "C04", f"c04::step::<{n}, {mode}, {cls}, _>",
+      f"one step of the real Tokenizer from state '{MODES[mode]}' on {n} remaining bytes ({first}) == reference 488.2 lexer "
+      f"step: element type, exact payload byte range, cursor, mode afterwards, non-decimal value; violations of 488.2 "
+      f"syntax rejected with a command error; no panic, progress",
+      f"remaining input exactly {n} bytes, {first}", cap_s=cap, mem_gb=mem, unwind=unwind or max(n + 3, 8),
+      also=["C01", "C14"], sample=(mode == 0 and cls == 0 and n == 2))
+
+
+# fully symbolic content, one instance per length
+for n in range(0, 5):
+    KLEX(n, 0, 0, "q", cap=600, mem=4)
+for n in (5, 6):
+    KLEX(n, 0, 0, "t", cap=3600, mem=8)
+for n in range(0, 3):
+    KLEX(n, 1, 0, "q", cap=900, mem=6)
+for n in (3, 4):
+    KLEX(n, 1, 0, "t", cap=5400, mem=14)
+KLEX(5, 1, 0, "t", cap=7200, mem=24, kind="attempt")
+for n in (1, 2, 3):
+    KLEX(n, 2, 0, "q", cap=600, mem=4)
+for n in (1, 2):
+    KLEX(n, 3, 0, "q", cap=900, mem=6)
+# class-representative dispatch byte, longer remaining input (boundaries: 12/13 characters, block header digits)
+for cls, n in ((1, 6), (1, 13), (1, 14), (15, 13), (15, 14), (16, 4), (17, 4), (18, 5), (20, 5)):
+    KLEX(n, 0, cls, "q", cap=600, mem=4)
+for cls, n in ((1, 6), (1, 13), (1, 14), (2, 5), (3, 5), (4, 5), (24, 8), (24, 14), (25, 6), (5, 6), (6, 6), (7, 6), (8, 5),
+               (9, 6), (10, 8), (12, 6), (13, 6), (14, 6), (19, 4), (18, 4), (20, 4), (22, 3), (23, 3), (21, 3)):
+    KLEX(n, 1, cls, "q", cap=900, mem=6)
+for cls, n in ((2, 8), (3, 8), (24, 15), (5, 10), (5, 20), (6, 25), (10, 14), (11, 12), (12, 10), (14, 10)):
+    KLEX(n, 1, cls, "t", cap=3600, mem=10)
+
 # ---------------------------------------------------------------------------- C07
 def F(t):
     return "f32" if t in ("u8", "i8", "u16", "i16") else "f64"
@@ -129,12 +172,10 @@ for ql in (0, 1, 2, 3):
       unwind=20)
     H(f"c13_q_count_q{ql}", "C13", f"c13::count::<{ql}, _>", f"SYSTem:ERRor:COUNt? with {ql} queued errors: answers "
       f"{ql}, changes nothing", "all error numbers, all register states", cap_s=300, mem_gb=3, unwind=12)
-for ql in (0, 1, 2):
-    H(f"c13_q_all_q{ql}", "C13", f"c13::all::<{ql}, _>", f"SYSTem:ERRor:ALL? with {ql} queued errors: all items in order, "
-      f"queue emptied; empty -> 0,\"No error\"", "all error numbers; queue length concrete", cap_s=900, mem_gb=5,
-      unwind=12)
-H("c13_ta_all_q3", "C13", "c13::all::<3, _>", "SYSTem:ERRor:ALL? with 3 queued errors", "error numbers -999..-100", cap_s=3600,
-  mem_gb=8, unwind=20)
+for ql, tier in ((0, "q"), (1, "q"), (2, "ta"), (3, "ta")):
+    H(f"c13_{tier}_all_q{ql}", "C13", f"c13::all::<{ql}, _>", f"SYSTem:ERRor:ALL? with {ql} queued errors: all items in "
+      f"order, queue emptied; empty -> 0,'No error'", "error numbers -999..-100 (fixed item width); queue length concrete",
+      cap_s=(900 if tier == "q" else 7200), mem_gb=(5 if tier == "q" else 12), unwind=12)
 
 # ---------------------------------------------------------------------------- C14
 H("c14_q_custom_mask", "C14", "c14::custom_mask", "Error::custom(c,_).esr_mask() and ErrorCode::Custom(c,_).esr_mask() "
@@ -362,7 +403,8 @@ PROPS["C20"] = {
 
 PROPS["C13"] = {
     "bounds": "one step from an arbitrary documented-wiring device: handle_error with 0..2 of 2 slots used; SYST:ERR? / "
-              ":COUN? with 0..3 items, :ALL? with 0..2 (3 attempted in thorough); *ESR? (c16_q_esr); *OPC (c16_q_opc_*); "
+              ":COUN? with 0..3 items, :ALL? with 0..1 items (2 and 3 are thorough-tier attempts: the drain loop over a "
+              "symbolic-length ArrayVec did not finish symbolic execution in 15 min); *ESR? (c16_q_esr); *OPC (c16_q_opc_*); "
               "error numbers unrestricted",
     "outside": "the wiring run -> handle_error (exactly once, with exactly the returned error) is C05's token-level "
                "obligation; queued items are custom errors with a fixed message text (formatting of arbitrary Error items "
